@@ -178,6 +178,9 @@ const classNode = "定义节点：\n    其号 = 0\n    其值 = 0\n    其下
 	"    如何探零？\n        以其下家（爆）\n        拦截异常：\n            输出 100\n" +
 	"    如何探一？\n        以其下家（传一）\n        拦截异常：\n            输出 100\n" +
 	"    如何探二？\n        以其下家（传二）\n        拦截异常：\n            输出 100\n" +
+	"    如何重抛？\n        以其下家（爆）\n        拦截异常：\n            抛出异常：“再”！\n" +
+	"    如何外拦？\n        以其下家（重抛）\n        拦截异常：\n            输出 100\n" +
+	"    如何账三？\n        输入D\n        令R = 以其下家（外拦）\n        其值 = 其值 + D\n        输出 其号 + R\n" +
 	"    如何账零？\n        输入D\n        令R = 以其下家（探零）\n        其值 = 其值 + D\n        输出 其号 + R\n" +
 	"    如何账一？\n        输入D\n        令R = 以其下家（探一）\n        其值 = 其值 + D\n        输出 其号 + R\n" +
 	"    如何账二？\n        输入D\n        令R = 以其下家（探二）\n        其值 = 其值 + D\n        输出 其号 + R\n" +
@@ -191,13 +194,15 @@ func H_ReceiverAfterIntercept() {
 	in := r.ElementMap{"A": value.NewNumber(a)}
 	var call string
 	const want = 101.0
-	switch zv.Choose(3) {
+	switch zv.Choose(4) {
 	case 0:
 		call = "以甲（账零：A）"
 	case 1:
 		call = "以甲（账一：A）"
-	default:
+	case 2:
 		call = "以甲（账二：A）"
+	default:
+		call = "以甲（账三：A）" // the inner handler raises again, an outer one intercepts
 	}
 	src := "输入A\n" + classNode + call + "，得到谁\n"
 	probe := zv.Choose(6)
